@@ -369,3 +369,72 @@ func verifH_C05_presence() {
 	}
 	verifReach("end")
 }
+
+//verif:harness id=C05 tier=quick,thorough witness=end,inrange,outofrange bounds="integer parameters at the range boundaries of their format: format in {none,int32,int64} x location in {path simple, query form, header} x text = one of 6 decimal prefixes (around +-2^31, 2^32, +-2^63, none) followed by two symbolic decimal digits (strconv.ParseInt exact through the table of all 100 instantiations): in range => the exact value in the format's Go type, out of range => ParseError, never a wrapped value"
+func verifH_C05_int_bounds() {
+	format := []string{"", "int32", "int64"}[verifChoose("format", 3)]
+	type pre struct {
+		text  string
+		base  int64 // value of the prefix * 100
+		neg   bool
+		max32 int // largest two-digit tail still inside int32 (-1: none, 99: all)
+		max64 int
+	}
+	prefixes := []pre{
+		{"", 0, false, 99, 99},
+		{"21474836", 2147483600, false, 47, 99},
+		{"-21474836", -2147483600, true, 48, 99},
+		{"42949672", 4294967200, false, -1, 99},
+		{"92233720368547758", 9223372036854775800, false, -1, 7},
+		{"-92233720368547758", -9223372036854775800, true, -1, 8},
+	}
+	p := prefixes[verifChoose("prefix", len(prefixes))]
+	d1 := verifNondetByteIn("d1", "0123456789")
+	d2 := verifNondetByteIn("d2", "0123456789")
+	if p.text == "" {
+		verifAssume(d1 != '0') // "07" is octal in base 0: covered by the generic leaf harnesses
+	}
+	text := p.text + string([]byte{d1, d2})
+	tail := int(d1-'0')*10 + int(d2-'0')
+	limit := p.max64
+	if format == "int32" {
+		limit = p.max32
+	}
+	schema := &openapi3.SchemaRef{Value: &openapi3.Schema{Type: &openapi3.Types{"integer"}, Format: format}}
+	var param *openapi3.Parameter
+	input := &RequestValidationInput{Request: &http.Request{Header: http.Header{}, URL: &url.URL{}}}
+	switch verifChoose("in", 3) {
+	case 0:
+		param = &openapi3.Parameter{Name: "p", In: "path", Required: true, Schema: schema}
+		input.PathParams = map[string]string{"p": text}
+	case 1:
+		param = &openapi3.Parameter{Name: "p", In: "query", Schema: schema}
+		input.QueryParams = url.Values{"p": []string{text}}
+	default:
+		param = &openapi3.Parameter{Name: "X-P", In: "header", Schema: schema}
+		input.Request.Header["X-P"] = []string{text}
+	}
+	got, found, err := decodeStyledParameter(param, input)
+	if tail <= limit {
+		var n int64
+		if p.neg {
+			n = p.base - int64(tail)
+		} else {
+			n = p.base + int64(tail)
+		}
+		verifAssert(err == nil && found, "C05 integer bounds: a text inside the format's range decodes")
+		if format == "int32" {
+			v, ok := got.(int32)
+			verifAssert(ok && int64(v) == n, "C05 integer bounds: int32 text decodes to exactly its value")
+		} else {
+			v, ok := got.(int64)
+			verifAssert(ok && v == n, "C05 integer bounds: integer text decodes to exactly its value")
+		}
+		verifReach("inrange")
+	} else {
+		_, isParse := err.(*ParseError)
+		verifAssert(err != nil && isParse, "C05 integer bounds: a text outside the format's range is a ParseError, not a wrapped value")
+		verifReach("outofrange")
+	}
+	verifReach("end")
+}
